@@ -254,7 +254,9 @@ def gen_case(rng, tier, small=False):
     return {"net": net.json(), "tree": tree, "order": rng.choice(ORDERS),
             "prefer_einsum": rng.random() < 0.35, "sort": rng.choice(SORTS),
             "impl": rng.choice(IMPLS), "slice": sl, "seed": rng.randrange(1 << 30),
-            "alphabet": rng.choice(gen.ALPHABETS)}
+            "alphabet": rng.choice(gen.ALPHABETS),
+            # the array library named explicitly instead of inferred from the operands
+            "backend": rng.random() < 0.25}
 
 
 def guards_ok(net):
@@ -286,7 +288,7 @@ def value_check(case, net, tree):
     oshape, res = reference(net, arrays)
     try:
         x = tree.contract(arrays, order=order, prefer_einsum=case["prefer_einsum"],
-                          implementation=case["impl"])
+                          implementation=case["impl"], **({"backend": "numpy"} if case.get("backend") else {}))
     except Exception as e:  # a crash is a failure of "returns the einsum value"
         return "raises %s: %s" % (type(e).__name__, str(e)[:120]), arrays, (oshape, res)
     return compare_with_reference(x, oshape, res), arrays, (oshape, res)
